@@ -1,6 +1,173 @@
 /-
-  C09 — property theorems (stub; to be filled in).
+  C09 — an Update or Delete without any condition never executes.
+
+  Decision logic: which condition forms create a WHERE entry (`Form.cond`, chainable_api.go + BuildCondition),
+  what the soft-delete modifier adds (`softDeleteModify`), and the guard `checkMissingWhereConditions`
+  (`missingWhere`); plus, from the REGENERATED handler tables, the position of the guard relative to the driver
+  calls of `Update` and `Delete`.
 -/
+import GormModel.Lemmas.Where
+import GormModel.Props.C08
+import GormModel.Gen.Pipelines
 namespace Gorm
+
+/-- a chain call contributes a condition iff its form is effective -/
+def effective (f : Form) : Bool := f.cond.isSome
+
+theorem mkAnd_isSome (es : List Ex) (h : es ≠ []) : (mkAnd es).isSome = true := by
+  cases es with
+  | nil => exact absurd rfl h
+  | cons e r => cases r <;> simp [mkAnd] <;> split <;> rfl
+
+/-- the empty forms: "", nil, empty map, all-zero struct, empty slice, group without conditions -/
+theorem C09_empty_forms_ineffective :
+    effective .empty = false ∧ effective (.fields []) = false ∧ effective (.group []) = false := by
+  simp [effective, Form.cond, mkAnd]
+
+/-- every non-empty form is effective -/
+theorem C09_nonempty_forms_effective (t : List Char) (n : Bool) (o : String) (fl : Flat) (a : Atom) (as : List Atom)
+    (e : Ex) (g : Ex) (gs : List Ex) :
+    effective (.raw t n o fl) = true ∧ effective (.col a) = true ∧ effective (.fields (a :: as)) = true ∧
+    effective (.expr e) = true ∧ effective (.group (g :: gs)) = true := by
+  refine ⟨rfl, rfl, ?_, ?_, ?_⟩
+  · exact mkAnd_isSome (List.map Ex.atom (a :: as)) (by simp)
+  · exact mkAnd_isSome [e] (by simp)
+  · simp only [effective, Form.cond]
+    cases gs with
+    | nil => cases g <;> simp [mkAnd, Ex.isOr]
+    | cons g2 gs2 => cases g <;> exact mkAnd_isSome (_ :: g2 :: gs2) (by simp)
+
+theorem chainStep_length (es : List Ex) (op : ChainOp) (f : Form) :
+    (chainStep es op f).length = es.length + (if effective f then 1 else 0) := by
+  unfold chainStep effective
+  cases hc : f.cond with
+  | none => simp
+  | some c =>
+    cases op with
+    | where_ => simp
+    | not_ =>
+      have : (mkNot [c]).isSome = true := by cases c <;> simp [mkNot]
+      cases hn : mkNot [c] with
+      | none => rw [hn] at this; simp at this
+      | some x => simp [hn]
+    | or_ =>
+      have h1 : (mkAnd [c]).isSome = true := mkAnd_isSome _ (by simp)
+      cases ha : mkAnd [c] with
+      | none => rw [ha] at h1; simp at h1
+      | some x => simp [ha, mkOr]
+
+/-- number of effective condition calls of a chain -/
+def effCount (ops : List (ChainOp × Form)) : Nat := (ops.filter (fun p => effective p.2)).length
+
+theorem chainExprs_length_aux (ops : List (ChainOp × Form)) (acc : List Ex) :
+    (ops.foldl (fun a p => chainStep a p.1 p.2) acc).length = acc.length + effCount ops := by
+  induction ops generalizing acc with
+  | nil => simp [effCount]
+  | cons p r ih =>
+    simp only [List.foldl_cons]
+    rw [ih, chainStep_length]
+    by_cases h : effective p.2 = true
+    · simp [effCount, List.filter_cons, h]; omega
+    · have h' : effective p.2 = false := by simpa using h
+      simp [effCount, List.filter_cons, h']
+
+/-- the WHERE entry holds exactly one expression per effective condition call, whatever Where/Not/Or mix -/
+theorem C09_where_length (ops : List (ChainOp × Form)) : (chainExprs ops).length = effCount ops := by
+  have := chainExprs_length_aux ops []
+  simpa [chainExprs] using this
+
+theorem regroup_length_pos (es : List Ex) (h : es ≠ []) : (regroup es).length ≥ 1 := by
+  unfold regroup
+  by_cases ha : es.any Ex.isSingleOr = true
+  · simp only [ha, if_true]
+    have := mkAnd_isSome es h
+    cases hm : mkAnd es with
+    | none => rw [hm] at this; simp at this
+    | some x => simp
+  · have h' : es.any Ex.isSingleOr = false := by simpa using ha
+    simp only [h', Bool.false_eq_true, if_false]
+    cases es with
+    | nil => exact absurd rfl h
+    | cons e r => simp
+
+/-- BLOCKS: without AllowGlobalUpdate, a chain none of whose condition calls is effective and a model value
+    without primary key is rejected — on a plain model (no WHERE entry at all) and on a soft-delete model
+    (the filter alone does not count) -/
+theorem C09_blocks (ops : List (ChainOp × Form)) (soft : Option Atom)
+    (h : ∀ p ∈ ops, effective p.2 = false) :
+    missingWhere false (guardState ops none soft false) = true := by
+  have hc : effCount ops = 0 := by
+    simp only [effCount, List.length_eq_zero_iff, List.filter_eq_nil_iff]
+    intro p hp; simp [h p hp]
+  have hl := C09_where_length ops
+  rw [hc] at hl
+  have hnil : chainExprs ops = [] := List.eq_nil_of_length_eq_zero hl
+  cases soft with
+  | none => simp [guardState, hnil, missingWhere]
+  | some f => simp [guardState, hnil, missingWhere, softDeleteModify]
+
+/-- ADMITS: a chain with at least one effective condition call, or a model value with a primary key, is never
+    rejected on this ground — plain or soft-delete model, scoped or Unscoped -/
+theorem C09_admits (ops : List (ChainOp × Form)) (pk : Option Atom) (soft : Option Atom) (unscoped : Bool)
+    (h : (∃ p ∈ ops, effective p.2 = true) ∨ pk.isSome = true) :
+    missingWhere false (guardState ops pk soft unscoped) = false := by
+  have hne : chainExprs ops ++ (pk.map Ex.atom).toList ≠ [] := by
+    rcases h with ⟨p, hp, he⟩ | hk
+    · have : effCount ops ≥ 1 := by
+        have : p ∈ ops.filter (fun q => effective q.2) := List.mem_filter.mpr ⟨hp, he⟩
+        exact List.length_pos_of_mem this
+      have hl := C09_where_length ops
+      intro hnil
+      have h0 : (chainExprs ops).length = 0 := by
+        rw [(List.append_eq_nil_iff.mp hnil).1]; rfl
+      omega
+    · cases pk with
+      | none => simp at hk
+      | some a => simp
+  generalize hes : chainExprs ops ++ (pk.map Ex.atom).toList = es at hne
+  have hemp : es.isEmpty = false := by cases es with | nil => exact absurd rfl hne | cons _ _ => rfl
+  cases soft with
+  | none => simp [guardState, hes, hemp, missingWhere]
+  | some f =>
+    cases unscoped with
+    | true => simp [guardState, hes, hemp, missingWhere, softDeleteModify]
+    | false =>
+      have hr := regroup_length_pos es hne
+      simp only [guardState, hes, hemp, Bool.false_eq_true, if_false]
+      rw [show (softDeleteModify false f { exprs := some es, softEnabled := false })
+            = { exprs := some (regroup es ++ [.atom f]), softEnabled := true } by
+          simp [softDeleteModify, regroup]]
+      simp only [missingWhere, Bool.false_eq_true, if_false, if_true, List.length_append, List.length_singleton]
+      simp; omega
+
+/-- AllowGlobalUpdate (config or session) switches the guard off -/
+theorem C09_allow_global (s : WhereState) : missingWhere true s = false := by simp [missingWhere]
+
+/-- boundary, stated not hidden: an explicit EMPTY `clause.Where{}` object creates a WHERE entry with zero
+    expressions and passes the guard on a plain model -/
+theorem C09_empty_where_clause_example :
+    missingWhere false { exprs := some [], softEnabled := false } = false := by decide
+
+/-! ### position of the guard in the regenerated `Update` / `Delete` handlers -/
+
+def guardBeforeDriver (h : HandlerFact) : Bool :=
+  match h.calls.findIdx? (fun c => c.kind == "checkMissingWhere") with
+  | none => false
+  | some i =>
+    let g := (h.calls.getD i { kind := "", what := "", guards := [], inClosure := false }).guards
+    -- every driver call comes after the guard, and re-tests db.Error == nil after it
+    (List.range h.calls.length).all (fun k =>
+      let c := h.calls.getD k { kind := "", what := "", guards := [], inClosure := false }
+      c.kind != "driver" || (decide (i < k) && (c.guards.drop g.length).contains "db.Error == nil"))
+
+/-- in callbacks/update.go `Update` and callbacks/delete.go `Delete` (as they are in /repo now) the call of
+    checkMissingWhereConditions precedes every ExecContext/QueryContext, and each of those is guarded by a
+    `db.Error == nil` test evaluated after the guard ran -/
+theorem C09_guard_position :
+    ∀ h ∈ Gen.handlers, (h.name = "Update" ∨ h.name = "Delete") → guardBeforeDriver h = true := by
+  decide
+
+theorem C09_guard_handlers_exist :
+    (Gen.handlers.filter (fun h => h.name == "Update" || h.name == "Delete")).length = 2 := by decide
 
 end Gorm
